@@ -66,12 +66,18 @@ def _finite(*ts):
     return all(bool(torch.isfinite(t).all()) for t in ts)
 
 
-def _scaled_ok(model, xi, ci, x_err, y_err, nx, ny, tau):
+def _scaled_ok(model, xi, ci, x_err, y_err, nx, ny, tau, need_x=False, x_back=None):
     """Conditioning-scaled acceptance using the item Jacobian's singular values."""
     try:
         J, _, _ = jm.item_jacobian(lambda z, c: model(z, c), xi, ci)
         sv = torch.linalg.svdvals(J)
         smax, smin = float(sv.max()), float(sv.min())
+        if need_x and x_back is not None and torch.isfinite(x_back).all():
+            # x may sit exactly on a knot next to a saturated (flat) piece: the one-sided derivative at x is regular while
+            # the inverse legitimately lands anywhere inside the flat piece - look at the returned point as well
+            J2, _, _ = jm.item_jacobian(lambda z, c: model(z, c), x_back, ci)
+            sv2 = torch.linalg.svdvals(J2)
+            smax, smin = max(smax, float(sv2.max())), min(smin, float(sv2.min()))
     except Exception:
         return False, None
     if not (smin > 1e-8 and smax < 1e8):
@@ -80,7 +86,7 @@ def _scaled_ok(model, xi, ci, x_err, y_err, nx, ny, tau):
         return True, "singular"
     ok_x = x_err <= tau * (1 + nx + ny / smin)
     ok_y = y_err <= tau * (1 + ny + smax * nx)
-    return bool(ok_x or ok_y), {"smax": smax, "smin": smin}
+    return bool(ok_x if need_x else (ok_x or ok_y)), {"smax": smax, "smin": smin}
 
 
 def run_case(case):
@@ -222,13 +228,17 @@ def run_case(case):
             else:
                 nx = float(xi_[i].abs().max())
                 x_err = float("inf")
-            ok = (x_err <= tau * (1 + nx)) or (y_err <= tau * (1 + ny))
+            # inverse(forward(x)) must give back x ITSELF: reproducing y from another pre-image (a map that is not
+            # injective) is not enough; only local ill-conditioning (measured at x) excuses a larger distance.  For
+            # directly drawn y there is no x to compare with and forward(inverse(y)) == y is the clause.
+            need_x = x_true is not None
+            ok = (x_err <= tau * (1 + nx)) if need_x else (y_err <= tau * (1 + ny))
             info = None
             if not ok:
                 ok, info = _scaled_ok(model, (x_true if x_true is not None else xi_)[i], ctx[i] if ctx is not None else None,
-                                      x_err, y_err, nx, ny, tau)
+                                      x_err, y_err, nx, ny, tau, need_x, xi_[i])
                 r.count("jacobian_scaled_decisions")
-            worst = max(worst, min(x_err / (tau * (1 + nx)), y_err / (tau * (1 + ny))))
+            worst = max(worst, (x_err / (tau * (1 + nx))) if need_x else (y_err / (tau * (1 + ny))))
             if info == "singular":
                 r.count("skipped_saturated_items")
                 continue
